@@ -163,6 +163,9 @@ def run(ctx):
     stats_c, samples = F.fix_correspondence(ctx, 40 if ctx.quick() else 600, F.FIX_CORPUS)
     ev_m, fails_m, samples_m = multi_file(ctx, not ctx.quick())
     ev_a, fails_a = api_truthful(ctx)
+    import c15 as _c15          # scan-stdin must not leave its capture file behind even when the scan fails
+    ev_s, fails_s = _c15.stdin_faults(ctx)
+    fails_a = fails_a + [f for f in fails_s if f[1] == "temp-file-left"]
     for case, sym, det in fails_m + fails_a:
         ctx.report(case, sym, {"detail": det, "oracle": "C10 statement on a multi-file invocation (directory snapshots, Fixed: lines, exit code, file operations)"})
     res = [t for _, t in docs.rule_resources()]
@@ -196,6 +199,7 @@ def run(ctx):
     ctx.assumptions += ["A-REC (a fix record implies the content differs) is a fact about rule bodies: explored, not proved",
                         "documents on which scan or fix fails are C07/C15's subject and skipped"]
     ctx.write_evidence({"correspondence": stats_c,
+                        "stdin_faults": {"evaluations": ev_s, "rule": "scan-stdin with a plug-in / parser failure x continue/stop x both schemes: no file left behind", "exhaustive": True},
                         "api": {"evaluations": ev_a, "rule": "5 pool files x {no scheme, default, minimal} x {fix_path, fix_string}", "exhaustive": True},
                         "multi_file": {"evaluations": ev_m, "rule": "subsets (<=3) of 5 pool files x {scan, scan-stdin, scan -l, fix} x {default, minimal}", "exhaustive": not ctx.quick()},
                         "per_document": {"evaluations": evals, "distinct_nontrivial": nontrivial, "skipped_failing_runs": skipped, "listed_inputs_absorbed": base.absorbed,
